@@ -31,6 +31,7 @@ func (k *keySnap) String() string {
 
 type bucketSnap struct {
 	ListStatus int
+	Grouped    string   // listing with delimiter "/" (shows directories on the fs backends)
 	Listing    []string // "key|size|etag"
 	Keys       map[string]*keySnap
 	Uploads    []string // "key|uploadId|parts..."
@@ -149,6 +150,9 @@ func (r *Run) snapshotStore(extra ...[2]string) *storeSnap {
 	for _, n := range bn {
 		bs := &bucketSnap{Keys: map[string]*keySnap{}}
 		bs.ListStatus, bs.Listing = r.observeListing(n)
+		if bs.ListStatus == 200 {
+			bs.Grouped = r.observeGrouped(n)
+		}
 		keys := map[string]bool{}
 		for _, l := range bs.Listing {
 			keys[strings.SplitN(l, "|", 2)[0]] = true
@@ -263,6 +267,9 @@ func diffSnap(a, b *storeSnap, except ...[2]string) string {
 		if strings.Join(lx, "\n") != strings.Join(ly, "\n") {
 			return fmt.Sprintf("bucket %s: listing changed: before %v after %v", n, lx, ly)
 		}
+		if !skipBucket(n) && x.Grouped != y.Grouped {
+			return fmt.Sprintf("bucket %s: delimited listing changed: before %s after %s", n, x.Grouped, y.Grouped)
+		}
 		if strings.Join(x.Uploads, "\n") != strings.Join(y.Uploads, "\n") {
 			return fmt.Sprintf("bucket %s: pending uploads changed: before %v after %v", n, x.Uploads, y.Uploads)
 		}
@@ -290,7 +297,7 @@ func dropListed(l []string, bucket string, except [][2]string) []string {
 // snapSig reduces a difference description to its class (for signatures).
 func snapSig(d string) string {
 	for _, c := range []string{"bucket set", "no longer observable", "content appeared", "content vanished", "content became unreadable",
-		"status changed", "metadata changed", "content changed", "listing status", "listing changed", "pending uploads changed"} {
+		"status changed", "metadata changed", "content changed", "listing status", "delimited listing changed", "listing changed", "pending uploads changed"} {
 		if strings.Contains(d, c) {
 			return c
 		}
